@@ -18,6 +18,15 @@ type Clause struct {
 	Line  int
 }
 
+// Guarded declares that the map field Field of struct Struct is only accessed while the mutex field Lock of the same
+// struct is held, and that Inv (over $o, the struct pointer) holds whenever the mutex is free. Acquiring the mutex
+// forgets the map's content and assumes Inv; releasing it has to re-establish Inv; every access is an event.
+type Guarded struct {
+	Struct, Field, Lock string
+	Inv                 Clause
+	Pkg                 string
+}
+
 type LoopContract struct {
 	N          int
 	Invariants []Clause
@@ -111,6 +120,7 @@ type Contracts struct {
 	GhostMaps map[string]*GhostField // ghost map name -> (Struct = key sort, Sort = value sort)
 	Files   []string
 	Assumes []string // any 'assume' found in contract files (reported)
+	Guarded []*Guarded // maps protected by a mutex of the same struct (lock invariant, havoc on acquire)
 	GlobalInvs []Clause // facts about package-level variables established by package initialisation and never changed
 }
 
@@ -121,7 +131,7 @@ func NewContracts() *Contracts {
 
 var keywords = map[string]bool{"func": true, "requires": true, "ensures": true, "assigns": true, "elems": true, "emits": true, "emit": true,
 	"loop": true, "invariant": true, "decreases": true, "pred": true, "spec": true, "axiom": true, "lemma": true, "event": true,
-	"ghost": true, "at": true, "inline": true, "bounded": true, "exactstrings": true, "globalinv": true, "havoc": true, "nosafety": true, "assume": true}
+	"ghost": true, "at": true, "inline": true, "bounded": true, "exactstrings": true, "globalinv": true, "havoc": true, "nosafety": true, "assume": true, "guarded": true}
 
 type rawLine struct {
 	text string
@@ -454,6 +464,27 @@ func (cs *Contracts) parseLines(lines []rawLine, trusted bool, home string) erro
 			}
 			k := strings.LastIndex(f[1], ".")
 			cs.Ghosts[f[1]] = &GhostField{Struct: f[1][:k], Name: f[1][k+1:], Sort: f[2]}
+			cur = nil
+		case kw == "guarded":
+			// guarded xmpp.Router.IQResultRoutes by IQResultRouteLock [label] invariant <expr over $o>
+			m := regexp.MustCompile(`^(\S+)\.(\w+)\s+by\s+(\w+)\s+(.*)$`).FindStringSubmatch(rest)
+			if m == nil {
+				return errf("bad guarded declaration %q", rest)
+			}
+			r2 := strings.TrimSpace(m[4])
+			label := ""
+			if lm := labelRe.FindStringSubmatch(r2); lm != nil {
+				label = lm[0]
+				r2 = strings.TrimSpace(r2[len(lm[0]):])
+			}
+			if !strings.HasPrefix(r2, "invariant") {
+				return errf("guarded: missing invariant in %q", rest)
+			}
+			c, err := parseClause(label+strings.TrimSpace(strings.TrimPrefix(r2, "invariant")), rl)
+			if err != nil {
+				return err
+			}
+			cs.Guarded = append(cs.Guarded, &Guarded{Struct: m[1], Field: m[2], Lock: m[3], Inv: c, Pkg: home})
 			cur = nil
 		case kw == "globalinv":
 			c, err := parseClause(rest, rl)
